@@ -462,6 +462,32 @@ def f_reach(f, edge, blocks):
     return False
 
 
+def constructors_agree(prog, res):
+    """T9: every function that zero-fills a whole ZSTD_CCtx establishes the default parameters
+    before it hands the context out (a zero-filled parameter block is not the default one:
+    contentSizeFlag defaults to 1)."""
+    R = "T9.constructors-agree"
+    size = prog.record("ZSTD_CCtx_s")["size"]
+    n = 0
+    for f in prog.fns_in("lib/compress/zstd_compress.c"):
+        ms = []
+        for b, i, c in f.calls(("memset", "__builtin_memset")):
+            a0 = strip_casts(c["a"][0])
+            if const_val(c["a"][2]) == size and a0 is not None and a0.get("k") == "ref" and "ZSTD_CCtx" in (a0.get("t") or ""):
+                ms.append((b, i))
+        if not ms:
+            continue
+        n += 1
+        init = f.call_roots(("ZSTD_CCtx_reset", "ZSTD_CCtxParams_reset", "ZSTD_CCtxParams_init"))
+        rets = [(b, i) for b, i, r in f.returns() if not (r.get("e") is not None and const_val(r["e"]) == 0)] or [f.exit_node()]
+        ok = bool(init) and f.must_pass(via_roots=init, starts=[(b, i + 1) for b, i in ms], targets=rets)
+        res.check(ok, R, f.name + ":defaults-after-zero-fill", f.loc, "the zero-filled context gets the default parameters on every path to a successful return",
+                  "%s zero-fills a ZSTD_CCtx and can return it without establishing the default parameters: the same calls "
+                  "then produce different output on this kind of context" % f.name)
+    res.check(n >= 2, R, "constructors-found", "lib/compress/zstd_compress.c", "%d zero-filling constructors (heap and static)" % n, "constructors vanished")
+    res.need(R, 3)
+
+
 CLOCKS = {"clock", "time", "gettimeofday", "clock_gettime", "rand", "random", "srand", "rand_r", "getenv", "secure_getenv", "getpid", "gettid",
           "pthread_self", "UTIL_getTime", "UTIL_clockSpanMicro", "timespec_get", "GetCurrentClockTimeMicroseconds", "drand48", "lrand48", "arc4random"}
 
@@ -602,6 +628,7 @@ def run(tier):
     cctx_frame(prog, res)
     cctx_stream(prog, res)
     scoped_collector(prog, res)
+    constructors_agree(prog, res)
     cleanliness(prog, res)
     per_block_refresh(prog, res)
     salt_rule(prog, res)
